@@ -124,7 +124,13 @@ class IndividualAddress(BaseAddress):
             self.raw = address.raw
         elif isinstance(address, str):
             if address.isascii() and address.isdigit():
-                self.raw = int(address)
+                try:
+                    self.raw = int(address)
+                except ValueError as err:
+                    # more digits than int() converts (sys.get_int_max_str_digits)
+                    raise CouldNotParseAddress(
+                        address, message="Address out of range"
+                    ) from err
             else:
                 self.raw = self.__string_to_int(address)
         else:
@@ -240,7 +246,13 @@ class GroupAddress(BaseAddress):
             self.raw = address.raw
         elif isinstance(address, str):
             if address.isascii() and address.isdigit():
-                self.raw = int(address)
+                try:
+                    self.raw = int(address)
+                except ValueError as err:
+                    # more digits than int() converts (sys.get_int_max_str_digits)
+                    raise CouldNotParseAddress(
+                        address, message="Address out of range"
+                    ) from err
             else:
                 self.raw = self.__string_to_int(address)
         else:
